@@ -1,4 +1,4 @@
-import HL.Lemmas.ParserSync
+import HL.Lemmas.ParserShift
 /-
   C07 "A syntax error stays contained in its own entry" — the parser's part, on token streams.
   (The lexer's line locality `lex_line_local` turns these into statements about texts.)
@@ -18,6 +18,8 @@ import HL.Lemmas.ParserSync
                            `B` is exactly what parsing `B` alone gives (default year as left
                            by `Ed`), with exactly its own errors; errors raised while consuming
                            `Ed` sit on tokens of `Ed` or on the Newline that ends it.
+  * `parse_shift`, `C07_contained_shifted`  positions: when the rest of the file is moved by
+                           `d` lines/bytes, what is parsed from it is the same, moved by `d`.
   * `C07_suffix_independent_of_damage`  two different damages `Ed₁ Ed₂` leave the part parsed
                            from `B` identical (journal content and errors) whenever they leave
                            the same default year.
@@ -222,6 +224,83 @@ theorem C07_suffix_independent_of_damage (A Ed1' Ed2' B' : List Token) (nlA nlE1
   have y2 : dyE2 = 0 := by rw [hd2' (fun t ht => (hEd2 t ht).2), hd2 (fun t ht => (hA t ht).2)]
   rw [y1] at hj1 hr1
   rw [y2] at hj2 hr2
+  refine ⟨(parseFrom num cls b0 B' 0).1, (parseFrom num cls b0 B' 0).2, iA1 ++ iE1, iA2 ++ iE2,
+    eA1 ++ eE1, eA2 ++ eE2, rfl, hj1, hj2, hr1, hr2, ?_, ?_⟩
+  · intro x hx
+    simp only [List.mem_append] at hx
+    rcases hx with hx | hx
+    · obtain ⟨t, ht, hp⟩ := zA1.weaken x hx
+      exact ⟨t, by simp at ht ⊢; rcases ht with h | h <;> simp [h], hp⟩
+    · obtain ⟨t, ht, hp⟩ := zE1.weaken x hx
+      exact ⟨t, by simp at ht ⊢; rcases ht with h | h | h <;> simp [h], hp⟩
+  · intro x hx
+    simp only [List.mem_append] at hx
+    rcases hx with hx | hx
+    · obtain ⟨t, ht, hp⟩ := zA2.weaken x hx
+      exact ⟨t, by simp at ht ⊢; rcases ht with h | h <;> simp [h], hp⟩
+    · obtain ⟨t, ht, hp⟩ := zE2.weaken x hx
+      exact ⟨t, by simp at ht ⊢; rcases ht with h | h | h <;> simp [h], hp⟩
+
+/-- `parse_shift`: moving every position of a token stream by `d` (lines and bytes inserted in
+    front of it) moves every position of its parse — ranges of transactions, postings, amounts,
+    tags, directives, error positions — by `d` and changes nothing else. -/
+theorem parse_shift (d : Shift) (b0 : Token) (B' : List Token) (dy : Int) :
+    parseFrom num cls (d.tok b0) (B'.map d.tok) dy =
+      (d.journal (parseFrom num cls b0 B' dy).1, (parseFrom num cls b0 B' dy).2.map d.perr) := by
+  have := parseJournal_shift num cls d (headState b0 B' [] dy)
+  have e : shiftSt d (headState b0 B' [] dy) = headState (d.tok b0) (B'.map d.tok) [] dy := rfl
+  rw [e] at this
+  unfold parseFrom
+  rw [this]
+  rfl
+
+/-- The same for a whole file. -/
+theorem parseTokens_shift' (d : Shift) (toks : List Token) :
+    parseTokens num cls (toks.map d.tok) =
+      (d.journal (parseTokens num cls toks).1, (parseTokens num cls toks).2.map d.perr) :=
+  parseTokens_shift num cls d toks
+
+/-- **Containment with the rest of the file moved.**  Intact file `A … Ed₁ … B`, damaged file
+    `A … Ed₂ … B↓d` where the damage inserted `d.dl` lines / `d.doff` bytes, so that every token
+    of `B` is moved by `d` (this is what the lexer's line locality gives).  No Directive token
+    in `A`, `Ed₁`, `Ed₂`.  Then what the damaged file yields for `B` is what the intact file
+    yields for `B`, moved by `d`: same transactions / directives / comments / includes with the
+    same content, ranges shifted by `d`; and exactly `B`'s own errors, shifted by `d`.  All other
+    errors of the damaged file sit on tokens of `A` or `Ed₂` (or the Newline ending them). -/
+theorem C07_contained_shifted (d : Shift) (A Ed1' Ed2' B' : List Token) (nlA nlE1 nlE2 e1 e2 b0 : Token)
+    (hA : ∀ t ∈ A, t.ty ≠ .eof ∧ t.ty ≠ .directive)
+    (hEd1 : ∀ t ∈ e1 :: Ed1', t.ty ≠ .eof ∧ t.ty ≠ .directive)
+    (hEd2 : ∀ t ∈ e2 :: Ed2', t.ty ≠ .eof ∧ t.ty ≠ .directive)
+    (hnA : nlA.ty = .newline) (hn1 : nlE1.ty = .newline) (hn2 : nlE2.ty = .newline)
+    (he1 : e1.ty ≠ .indent ∧ e1.ty ≠ .newline) (he2 : e2.ty ≠ .indent ∧ e2.ty ≠ .newline)
+    (hb0 : b0.ty ≠ .indent ∧ b0.ty ≠ .newline) (hB : ∃ t ∈ b0 :: B', t.ty = .eof) :
+    ∃ JB EB items1 items2 errs1 errs2,
+      (JB, EB) = parseFrom num cls b0 B' 0 ∧
+      (parseTokens num cls (A ++ nlA :: e1 :: Ed1' ++ nlE1 :: b0 :: B')).1 = pushAll items1 JB ∧
+      (parseTokens num cls (A ++ nlA :: e2 :: Ed2' ++ nlE2 :: d.tok b0 :: B'.map d.tok)).1 =
+        pushAll items2 (d.journal JB) ∧
+      (parseTokens num cls (A ++ nlA :: e1 :: Ed1' ++ nlE1 :: b0 :: B')).2 = errs1 ++ EB ∧
+      (parseTokens num cls (A ++ nlA :: e2 :: Ed2' ++ nlE2 :: d.tok b0 :: B'.map d.tok)).2 =
+        errs2 ++ EB.map d.perr ∧
+      (∀ x ∈ errs1, ∃ t ∈ A ++ nlA :: e1 :: Ed1' ++ [nlE1], x.pos = t.pos) ∧
+      (∀ x ∈ errs2, ∃ t ∈ A ++ nlA :: e2 :: Ed2' ++ [nlE2], x.pos = t.pos) := by
+  have hB2 : ∃ t ∈ d.tok b0 :: B'.map d.tok, t.ty = .eof := by
+    obtain ⟨t, ht, he⟩ := hB
+    refine ⟨d.tok t, ?_, by simpa using he⟩
+    simp only [List.mem_cons, List.mem_map] at ht ⊢
+    rcases ht with h | h
+    · exact Or.inl (by rw [h])
+    · exact Or.inr ⟨t, h, rfl⟩
+  obtain ⟨iA1, iE1, eA1, eE1, dyA1, dyE1, zA1, zE1, hd1, hd1', _, hj1, hr1⟩ :=
+    C07_contained_tokens num cls A Ed1' B' nlA nlE1 e1 b0 (fun t ht => (hA t ht).1)
+      (fun t ht => (hEd1 t ht).1) hnA hn1 he1 hb0 hB
+  obtain ⟨iA2, iE2, eA2, eE2, dyA2, dyE2, zA2, zE2, hd2, hd2', _, hj2, hr2⟩ :=
+    C07_contained_tokens num cls A Ed2' (B'.map d.tok) nlA nlE2 e2 (d.tok b0) (fun t ht => (hA t ht).1)
+      (fun t ht => (hEd2 t ht).1) hnA hn2 he2 (by simpa using hb0) hB2
+  have y1 : dyE1 = 0 := by rw [hd1' (fun t ht => (hEd1 t ht).2), hd1 (fun t ht => (hA t ht).2)]
+  have y2 : dyE2 = 0 := by rw [hd2' (fun t ht => (hEd2 t ht).2), hd2 (fun t ht => (hA t ht).2)]
+  rw [y1] at hj1 hr1
+  rw [y2, parse_shift] at hj2 hr2
   refine ⟨(parseFrom num cls b0 B' 0).1, (parseFrom num cls b0 B' 0).2, iA1 ++ iE1, iA2 ++ iE2,
     eA1 ++ eE1, eA2 ++ eE2, rfl, hj1, hj2, hr1, hr2, ?_, ?_⟩
   · intro x hx
